@@ -3,6 +3,7 @@ CONSTANTS
   CheckTrailer = FALSE
   UpdateWatchdog = FALSE
   WaitOrigins = FALSE
+  CallerCtx = TRUE
   Bound = 1
   NOrigs = {0}
   Intfs = {"keep"}
